@@ -263,6 +263,12 @@ class WorkerRun:
             import numpy as np
 
             payload = {RESOURCE_ATTR: self.level, "bad": np.arange(3)}
+        elif kind == "nonstr_key_np":
+            import numpy as np
+
+            payload = {RESOURCE_ATTR: self.level, "bad": {np.int64(1): 2.0, "ok": 1.0}}  # a key JSON cannot represent
+        elif kind == "nonstr_key_tuple":
+            payload = {RESOURCE_ATTR: self.level, "bad": [{"n": 1}, {(1, 2): 3}]}
         elif kind == "oversize":
             payload = {RESOURCE_ATTR: self.level, "bad": "x" * 60000}
         else:
